@@ -198,6 +198,21 @@ def crash_points(rng, entries, tier, per_program, tails=None, firsts=None):
             rng.shuffle(torn_pts)
             torn_pts = torn_pts[:per_program // 5]
         first_pts = first_pts + [p for p in torn_pts if p not in set(first_pts)]
+        # ... and clean stops right AFTER an in-place write when the next write is an append: a writer that links before it writes the
+        # chunk leaves a dangling link exactly there
+        end2, prev_inplace, after_ip = 0, False, []
+        for k2, (kind2, off2, ln2) in enumerate(entries):
+            if kind2 == 0:
+                if prev_inplace and off2 >= end2:
+                    after_ip.append((k2, 0, "between"))
+                prev_inplace = off2 < end2
+                end2 = max(end2, off2 + ln2)
+            elif kind2 == 1:
+                end2 = min(end2, off2)
+        if len(after_ip) > per_program // 6:
+            rng.shuffle(after_ip)
+            after_ip = after_ip[:per_program // 6]
+        first_pts = first_pts + [p for p in after_ip if p not in set(first_pts)]
         fs = set(first_pts)
         keep = [p for p in pts if structural(p) and p not in fs]
         if len(keep) > (2 * per_program) // 3 - len(first_pts):
